@@ -274,7 +274,10 @@ func (h NativeHashRecord[K, V]) EqualNative(thread *Thread, other NativeHashReco
 	}
 
 	for hkey, hval := range h {
-		oval := other[hkey]
+		oval, ok := other[hkey]
+		if !ok {
+			return false, value.Undefined
+		}
 		eqVal, err := Equal(thread, hval.ToValue(), oval.ToValue())
 		if !err.IsUndefined() {
 			return false, err
@@ -305,7 +308,10 @@ func (h NativeHashRecord[K, V]) LaxEqualNative(thread *Thread, other NativeHashR
 	}
 
 	for hkey, hval := range h {
-		oval := other[hkey]
+		oval, ok := other[hkey]
+		if !ok {
+			return false, value.Undefined
+		}
 		eqVal, err := LaxEqual(thread, hval.ToValue(), oval.ToValue())
 		if !err.IsUndefined() {
 			return false, err
